@@ -1,3 +1,4 @@
+import RossModel.Spec.Node
 import RossModel.Lemmas.Transparent
 import RossModel.Lemmas.Send
 import RossModel.Lemmas.Protocol
@@ -7,23 +8,13 @@ import RossModel.Lemmas.Event
 -/
 namespace Ross
 
-/-- what `Interface::try_get_packet` returns for one poll of a link receiver -/
-def toRx : Out → Except IfErr Packet
-  | .nothing => .error .noPacket
-  | .emit (.packet p) => .ok p
-  | .emit _ => .error (.other 1)
-  | .blocked => .error (.other 2)
 
-/-- tick once per queued link result -/
-def Proto.tickAll (s : Proto) : Proto :=
-  (List.range s.rxQueue.length).foldl (fun st _ => st.tick.1) s
 
-def packetsOf : List (Except IfErr Packet) → List Packet
-  | [] => []
-  | .ok p :: q => p :: packetsOf q
-  | _ :: q => packetsOf q
 
-def ownedBy (addr : UInt16) (p : Packet) : Bool := p.addr == addr || p.addr == BROADCAST
+
+
+
+
 
 /-- ticking through a queue without link errors: every queued packet is dispatched, in order -/
 theorem tick_fold (n : Nat) (s : Proto) (hn : n = s.rxQueue.length)
@@ -95,9 +86,7 @@ theorem packetsOf_toRx (outs : List Out) (ps : List Packet)
           · simp [toRx]
           · exact i2 x hx t⟩
 
-/-- the events C16 routes to the link (everything not addressed to the sender itself, and everything
-when the sender's own address is the broadcast address) -/
-def routed (a : UInt16) (e : Event) : Bool := e.receiver != a || a == BROADCAST
+
 
 /-- C01 (USART link): for every event sequence, every pair of addresses, every handler table and every
 placement of would-blocks between any two bytes: the peer's handlers are called, in order, exactly with
